@@ -11,6 +11,7 @@ import (
 	"github.com/buildbarn/bb-storage/internal/verifstub"
 	"github.com/buildbarn/bb-storage/pkg/blobstore/buffer"
 	"github.com/buildbarn/bb-storage/pkg/blobstore/replication"
+	"github.com/buildbarn/bb-storage/pkg/blobstore/slicing"
 	"github.com/buildbarn/bb-storage/pkg/digest"
 
 	"google.golang.org/grpc/codes"
@@ -121,8 +122,18 @@ func verifGetOnce(ctx context.Context, p *verifPair) {
 	var data []byte
 	var err error
 	chunked, repairedAtEOF := false, false
-	if vnd.Choose(2) == 0 {
+	firstOp := "Get"
+	mode := vnd.Choose(3)
+	if p.a.BufferKind == verifstub.KindStreamWithTask || p.b.BufferKind == verifstub.KindStreamWithTask {
+		mode = vnd.Choose(2)
+	}
+	if mode == 0 {
 		data, err = p.ba.Get(ctx, d).ToByteSlice(100)
+	} else if mode == 2 {
+		// composite read (the child is the whole parent): same replica order, same repair
+		vnd.Cover("get-composite")
+		firstOp = "GetFromComposite"
+		data, err = p.ba.GetFromComposite(ctx, d, d, verifWholeSlicer{}).ToByteSlice(100)
 	} else {
 		// chunked consumption: the read is complete when Read reports io.EOF; the repair of
 		// the first replica must have finished by then
@@ -147,7 +158,7 @@ func verifGetOnce(ctx context.Context, p *verifPair) {
 	}
 
 	// The alternation advanced by exactly one.
-	vnd.Assert(len(first.Calls) >= 1 && first.Calls[0].Op == "Get", "the replica whose turn it is was not consulted first")
+	vnd.Assert(len(first.Calls) >= 1 && first.Calls[0].Op == firstOp, "the replica whose turn it is was not consulted first")
 
 	if err == nil {
 		vnd.Assert(string(data) == string(p.objs[k].Data), "Get succeeded with content other than the object's")
@@ -171,7 +182,13 @@ func verifGetOnce(ctx context.Context, p *verifPair) {
 	case !pS:
 		vnd.Cover("get-neither-holds")
 		vnd.Assert(err != nil, "Get succeeded although neither replica holds the object")
-		vnd.Assert(status.Code(err) == codes.NotFound, "object absent from both replicas is not reported as NOT_FOUND")
+		if mode == 2 && fP {
+			// a composite read repairs by copying the parent first: the failing repair
+			// write may be reported before the source is found to lack the object
+			vnd.Assert(status.Code(err) == codes.NotFound || status.Code(err) == codes.Unavailable, "object absent from both replicas reported neither as NOT_FOUND nor as the replica's failure")
+		} else {
+			vnd.Assert(status.Code(err) == codes.NotFound, "object absent from both replicas is not reported as NOT_FOUND")
+		}
 		vnd.Assert(first.PutOK == 0 && second.PutOK == 0, "something was stored although nothing was found")
 	case fP:
 		vnd.Cover("get-repair-write-fails")
@@ -462,4 +479,12 @@ func Verif_C11_M5_ChunkedReadRepairSchedules() {
 	r.Close()
 	vnd.Assert(string(data) == string(p.objs[0].Data), "Get returned content other than the object's")
 	vnd.Cover("repaired-at-eof")
+}
+
+
+// verifWholeSlicer designates the whole parent as the requested child.
+type verifWholeSlicer struct{}
+
+func (verifWholeSlicer) Slice(b buffer.Buffer, childDigest digest.Digest) (buffer.Buffer, []slicing.BlobSlice) {
+	return b, nil
 }
